@@ -3,8 +3,8 @@ virtual clock, real DPEventLoop handlers, real local Writer and Reader)."""
 from pipeline import run_pipeline
 
 TIERS = {
-    "quick": dict(mc=[("MC_Discovery_q_lease.cfg", 8), ("MC_Discovery_q_match.cfg", 8)], replay_limit=6000, random=dict(runs=800, events=40)),
-    "thorough": dict(mc=[("MC_Discovery_t_lease.cfg", 12), ("MC_Discovery_t_match.cfg", 12), ("MC_Discovery_t_two.cfg", 12)], replay_limit=80000, random=dict(runs=12000, events=60)),
+    "quick": dict(mc=[("MC_Discovery_q_lease.cfg", 8), ("MC_Discovery_q_match.cfg", 8), ("MC_Discovery_q_late.cfg", 8)], replay_limit=8000, random=dict(runs=800, events=40)),
+    "thorough": dict(mc=[("MC_Discovery_t_lease.cfg", 12), ("MC_Discovery_t_match.cfg", 12), ("MC_Discovery_t_two.cfg", 12), ("MC_Discovery_t_late.cfg", 12)], replay_limit=90000, random=dict(runs=12000, events=60)),
 }
 ASSUME = [
     "discovery events are applied as discovery.rs applies them (update DiscoveryDB, send the notification; the handler of DPEventLoop runs at once or, drawn per event, later while the DiscoveryDB is already ahead, in the order sent); the glue of discovery.rs itself is exercised by the system driver (C07)",
